@@ -48,14 +48,14 @@ fn main() {
     let mut eng = Engine::new("C20");
     eng.rule(
         "A case is a stream of segments (one command with parameters and terminator, or plain text) for one emulation, fed char by char to print_char on an 80x25 terminal buffer, \
-         get_next_action drained after every char (a loop is followed for 600 steps), get_picture_data read back (RIP: at the end; IGS: after every segment). Parsers are built as icy_term builds them \
+         get_next_action drained after every char (a loop is followed for 100 steps), get_picture_data read back (RIP: at the end; IGS: after every segment). Parsers are built as icy_term builds them \
          (rip::Parser over ansi::Parser with an empty cache directory; igs::Parser over DrawExecutor). \
          rip_table (exhaustive): 54 commands of the level-0/1/9 tables x {fresh, state-setting preamble} x every parameter string over {0,1,Z} of length 0..=6 (thorough: 0..=8), 9 periodic patterns for every longer length up to 24, and for the next two even lengths (8 and 10; thorough 10 and 12) all strings of two-digit fields over {00,0Z,ZZ}. \
          igs_table (exhaustive): 46 letters + unknown + '&' x {fresh, preamble} x 0..=12 parameters x value patterns over {0,1,3,8,200,20000} (uniform, selector+uniform, ramps, point counts, one or two large positions). \
          igs_loops (exhaustive): '&' over every letter x (4 small ranges incl. step 0 x 7 parameter styles (x, y, +n, -n, !n, mixed) + range 0..20001 step 20000 x {x, y}) x 3 declared counts x {fresh, preamble}. \
          rip_random / igs_random: 1..=10 segments, fields from {0,1,small,canvas edges,max,random}, truncated / over-long / punctuated / lower-case parameter lists, continuation lines, text variables, \
          unknown commands, plain text and ANSI between commands, chained and line-separated commands, loops with chain-gang targets, signed and empty IGS parameters up to 99999. \
-         Oracles: no panic (key = panic signature); no abort (abort|signal|family); one command <= 0.5 s CPU per 64 bytes (work.cpu|family; hard deadline 1.5 s CPU per stream); no sleeping \
+         Oracles: no panic (key = panic signature); no abort (abort|signal|family); one command <= 0.5 s CPU per 64 bytes (work.cpu|family; a segment is killed after 0.8 s CPU); no sleeping \
          (stall.sleep|family: >150 ms neither running nor runnable, 3 runs); loops end (loop.endless / loop.overrun); canvas data length = 4*w*h (canvas.size|family). family = emulation|command letter. \
          A panicking command is removed and the rest of the stream evaluated again, so defects behind a known one are still reported. \
          Non-trivial: at least one command was dispatched (RIP: the canvas changed hands, i.e. a command ran; IGS: a command terminator produced an action or an error, or a loop step ran); distinct by case hash.",
@@ -94,6 +94,6 @@ fn main() {
     let k4 = known.clone();
     eng.generated_min(iso("rip_random", 60_000, 2_000_000).shrink_budget(100), || rip::case_strategy(10), move |c| rip::check(c, &k4), |_| "rip|stream".to_string(), rip::minimize);
     let k5 = known.clone();
-    eng.generated_min(iso("igs_random", 80_000, 2_000_000).shrink_budget(40), || igs::case_strategy(10), move |c| igs::check(c, &k5), |_| "igs|stream".to_string(), igs::minimize);
+    eng.generated_min(iso("igs_random", 60_000, 2_000_000).shrink_budget(40), || igs::case_strategy(10), move |c| igs::check(c, &k5), |_| "igs|stream".to_string(), igs::minimize);
     eng.run();
 }
